@@ -698,6 +698,32 @@ impl<'a> Ctx<'a> {
     }
 }
 
+/// calls of growing size (both suites, plain and blind interface); the results are not judged here
+pub fn history_ladder(seed: u64) {
+    for s in [Suite::Sha, Suite::Shake] {
+        let ikm = prg(seed, "ladder-ikm", 0, 0, 40);
+        let Out::Ok((sk, pk)) = lib::keygen(s, &ikm, None, None) else { continue };
+        for l in 1..=9usize {
+            let msgs: Vec<Vec<u8>> = (0..l).map(|j| prg(seed, "ladder-msg", l as u64, j as u64, 6)).collect();
+            let hdr = Some(vec![l as u8]);
+            if let Out::Ok(sig) = lib::sign(s, &sk, &pk, &hdr, &Some(msgs.clone()), None) {
+                let _ = lib::verify(s, &sig, &pk, &hdr, &Some(msgs.clone()), None);
+                if let Out::Ok(p) = lib::proof_gen(s, &pk, &sig, &hdr, &None, &Some(msgs.clone()), &Some(vec![0]), None) {
+                    let _ = lib::proof_verify(s, &p, &pk, &hdr, &None, &Some(msgs[..1].to_vec()), &Some(vec![0]), None);
+                }
+            }
+            if l <= 5 {
+                let cms = msgs[..l / 2].to_vec();
+                if let Out::Ok((c, bf)) = lib::commit(s, &Some(cms.clone()), None) {
+                    if let Out::Ok(sig) = lib::blind_sign(s, &sk, &pk, &Some(c), &hdr, &Some(msgs.clone()), None) {
+                        let _ = lib::verify_blind(s, &sig, &pk, &hdr, &Some(msgs.clone()), &Some(cms.clone()), &Some(bf), None);
+                    }
+                }
+            }
+        }
+    }
+}
+
 pub fn run_cases(r: &Ref, cases: &[Value], cfg: &Cfg, threads: usize) -> Report {
     let total = Mutex::new(Report::default());
     let n = cases.len();
@@ -709,6 +735,9 @@ pub fn run_cases(r: &Ref, cases: &[Value], cfg: &Cfg, threads: usize) -> Report 
             let hi = ((t + 1) * chunk).min(n);
             sc.spawn(move || {
                 let mut rep = Report::default();
+                // a history before the cases: requests of growing size on this thread, so that the cases run
+                // after a sequence of earlier calls (the fresh-thread re-executions are the empty history)
+                history_ladder(cfg.insts.first().map(|i| i.seed).unwrap_or(0));
                 for ci in lo..hi {
                     let steps = &cases[ci];
                     rep.cases += 1;
